@@ -125,4 +125,622 @@ theorem compOk_of_inv {s : St} {a : Nat} (hw : WF s a) (hx : WFX s) : CompOk s :
     cases findT s.strands n <;> rfl
   · exact resolves_of_baseOk hw (struct_bases_ok hw hx he b hb) h0
 
+/-! ### names: prefixes and dashes -/
+
+def NoDash (n : String) : Prop := '-' ∉ n.toList
+
+instance (n : String) : Decidable (NoDash n) := by unfold NoDash; infer_instance
+
+/-- `x` starts with `p` -/
+def HasPfx (p x : String) : Prop := ∃ r : String, x = p ++ r
+
+theorem HasPfx.trans_append {p q x : String} (h : HasPfx (p ++ q) x) : HasPfx p x := by
+  obtain ⟨r, rfl⟩ := h
+  exact ⟨q ++ r, by rw [String.append_assoc]⟩
+
+theorem dash_split_list {c1 c2 r1 r2 : List Char} (h1 : '-' ∉ c1) (h2 : '-' ∉ c2)
+    (h : c1 ++ '-' :: r1 = c2 ++ '-' :: r2) : c1 = c2 := by
+  induction c1 generalizing c2 with
+  | nil =>
+    cases c2 with
+    | nil => rfl
+    | cons y t =>
+      simp only [List.nil_append, List.cons_append, List.cons.injEq] at h
+      exact absurd (h.1 ▸ List.mem_cons_self) h2
+  | cons x s ih =>
+    cases c2 with
+    | nil =>
+      simp only [List.nil_append, List.cons_append, List.cons.injEq] at h
+      exact absurd (h.1 ▸ List.mem_cons_self) h1
+    | cons y t =>
+      simp only [List.cons_append, List.cons.injEq] at h
+      rw [h.1, ih (fun hm => h1 (List.mem_cons_of_mem _ hm)) (fun hm => h2 (List.mem_cons_of_mem _ hm)) h.2]
+
+theorem dash_toList : "-".toList = ['-'] := rfl
+
+/-- `a-r = b-r'` with `a`, `b` dash-free: `a = b` and `r = r'` -/
+theorem dash_split {a b r r' : String} (ha : NoDash a) (hb : NoDash b) (h : a ++ "-" ++ r = b ++ "-" ++ r') :
+    a = b ∧ r = r' := by
+  have h' := congrArg String.toList h
+  simp only [String.toList_append, dash_toList, List.append_assoc, List.singleton_append] at h'
+  have hab : a = b := String.toList_inj.1 (dash_split_list ha hb h')
+  subst hab
+  refine ⟨rfl, ?_⟩
+  rw [String.append_assoc, String.append_assoc] at h
+  exact (String.append_right_inj _).1 ((String.append_right_inj _).1 h)
+
+theorem dash_ne {a b r : String} (hb : NoDash b) : a ++ "-" ++ r ≠ b := by
+  intro h
+  apply hb
+  rw [← h]
+  simp [String.toList_append, dash_toList]
+
+/-- names under sibling prefixes `p ++ c1 ++ "-"`, `p ++ c2 ++ "-"` (dash-free instance names) coincide only
+    when `c1 = c2` -/
+theorem sibling_pfx {p c1 c2 x : String} (h1 : NoDash c1) (h2 : NoDash c2) (hx1 : HasPfx (p ++ c1 ++ "-") x)
+    (hx2 : HasPfx (p ++ c2 ++ "-") x) : c1 = c2 := by
+  obtain ⟨r1, rfl⟩ := hx1
+  obtain ⟨r2, h⟩ := hx2
+  rw [String.append_assoc, String.append_assoc, String.append_assoc, String.append_assoc,
+    String.append_right_inj, ← String.append_assoc, ← String.append_assoc] at h
+  exact (dash_split h1 h2 h).1
+
+/-- a name `p ++ (b ++ t)` with `b` dash-free and `t` empty or starting with a dash carries the prefix
+    `p ++ c ++ "-"` only if `c = b` -/
+theorem pfx_dash_eq {p c b t x : String} (hc : NoDash c) (hb : NoDash b) (hx : HasPfx (p ++ c ++ "-") (p ++ b ++ "-" ++ t)) :
+    c = b := by
+  obtain ⟨r, h⟩ := hx
+  rw [String.append_assoc, String.append_assoc, String.append_assoc, String.append_assoc,
+    String.append_right_inj, ← String.append_assoc, ← String.append_assoc] at h
+  exact (dash_split hb hc h).1.symm
+
+theorem pfx_dash_ne {p c b : String} (hb : NoDash b) : ¬ HasPfx (p ++ c ++ "-") (p ++ b) := by
+  rintro ⟨r, h⟩
+  rw [String.append_assoc, String.append_assoc, String.append_right_inj, ← String.append_assoc] at h
+  exact dash_ne hb h.symm
+
+/-! ### the blocks of a tree -/
+
+theorem blocksComps_eq (comps : List (String × Inst)) :
+    blocksComps comps = comps.flatMap (fun c => blocksInst c.2) := by
+  induction comps with
+  | nil => rfl
+  | cons c r ih =>
+    obtain ⟨n, i⟩ := c
+    simp only [blocksComps, List.flatMap_cons, ih]
+
+def sigBlock (pfx : String) (lens : List (String × Nat)) (x : String × List SigEntry) : Block :=
+  Block.signal pfx x.1 ((lens.lookup x.1).getD 0) x.2
+
+theorem blocksInst_sys (p n pfx : String) (t : List (String × String)) (sg : List (String × List SigEntry))
+    (l : List (String × Nat)) (c : List (String × Inst)) (i o : List SigRef) :
+    blocksInst (.sys (.mk p n pfx t sg l c i o)) =
+      c.flatMap (fun x => blocksInst x.2) ++ sg.map (sigBlock pfx l) := by
+  simp only [blocksInst, blocksSys, blocksComps_eq]
+  rfl
+
+theorem blocksInst_comp (st : Comp.St) : blocksInst (.comp st) = [Block.comp st] := by
+  simp only [blocksInst]
+
+/-! ### hypotheses on the sources -/
+
+/-- name hypotheses on a system source, needed for the name clauses of `BlocksOk`:
+* instance names contain no `-` — otherwise instance `a` with sequence `b-c` and instance `a-b` with sequence
+  `c` both emit `a-b-c`;
+* signal names contain no `-` — otherwise signal `b-x` of system `a` and sequence `x` of its instance `b`
+  both emit `a-b-x`;
+* no signal has the name of an instance of the same system — otherwise, with a signal `S` bound to port `x` of
+  instance `C` and a sub-system instance `S` that has an instance `C` with a structure `x`, the connector
+  structure `S-C-x` and the structure `x` of `S-C-` coincide (also: signal `S`'s auxiliary `S-_WC` and a
+  sequence `_WC` of a component instance `S`);
+* the signals of the declaration are pairwise distinct — otherwise a signal of the enclosing system bound to
+  two ports of that name emits the connector structure `S-C-x` twice. -/
+def SysNamesOk (s : SSrc) : Bool :=
+  (instNames s.stmts).all (fun n => decide (NoDash n)) &&
+  (sigNames s.stmts).all (fun n => decide (NoDash n) && !(instNames s.stmts).contains n) &&
+  decide (((s.inputs ++ s.outputs).map (·.name)).Nodup)
+
+/-- the sequences of a component's declaration are pairwise distinct (otherwise a signal bound to two ports of
+    the same sequence emits the connector structure `S-C-x` twice) -/
+def PortsDistinct (c : Comp.Src) : Bool := decide (((c.inputs ++ c.outputs).map (·.seq)).Nodup)
+
+abbrev PD (c : Comp.Src) : Prop := StmtNamesOk c = true ∧ PortsDistinct c = true
+abbrev QD (s : SSrc) : Prop := SysNamesOk s = true
+
+theorem SysNamesOk.inst {s : SSrc} (h : SysNamesOk s = true) : ∀ n ∈ instNames s.stmts, NoDash n := by
+  simp only [SysNamesOk, Bool.and_eq_true, List.all_eq_true, decide_eq_true_eq] at h
+  exact h.1.1
+
+theorem SysNamesOk.sig {s : SSrc} (h : SysNamesOk s = true) :
+    ∀ n ∈ sigNames s.stmts, NoDash n ∧ n ∉ instNames s.stmts := by
+  simp only [SysNamesOk, Bool.and_eq_true, List.all_eq_true, decide_eq_true_eq, Bool.not_eq_true',
+    List.contains_eq_mem, decide_eq_false_iff_not] at h
+  exact h.1.2
+
+theorem SysNamesOk.io {s : SSrc} (h : SysNamesOk s = true) : ((s.inputs ++ s.outputs).map (·.name)).Nodup := by
+  simp only [SysNamesOk, Bool.and_eq_true, decide_eq_true_eq] at h
+  exact h.2
+
+/-! ### name lists of a tree: distinct, and under the tree's prefix -/
+
+theorem names_ok (N : Block → List String)
+    (hcomp : ∀ {c : Comp.Src} {n : Nat} {pfx : String} {a : Nat} {st : Comp.St} {a' : Nat}, PD c →
+      Comp.load c n pfx a = .ok (st, a') → (N (.comp st)).Nodup ∧ ∀ x ∈ N (.comp st), HasPfx pfx x)
+    (hsig : ∀ {s : SSrc} {pfx : String} {sg : List (String × List SigEntry)} {lens : List (String × Nat)}
+      {comps : List (String × Inst)}, QD s → SysInv (instNames s.stmts) (sigNames s.stmts) sg lens comps →
+      (∀ c ∈ comps, Loaded PD QD (pfx ++ c.1 ++ "-") c.2) →
+      (sg.flatMap (fun x => N (sigBlock pfx lens x))).Nodup ∧
+      (∀ x ∈ sg.flatMap (fun x => N (sigBlock pfx lens x)), HasPfx pfx x) ∧
+      ∀ x ∈ sg.flatMap (fun x => N (sigBlock pfx lens x)), ∀ c ∈ comps, ¬ HasPfx (pfx ++ c.1 ++ "-") x)
+    {pfx : String} {inst : Inst} (hL : Loaded PD QD pfx inst) :
+    ((blocksInst inst).flatMap N).Nodup ∧ ∀ x ∈ (blocksInst inst).flatMap N, HasPfx pfx x := by
+  induction hL with
+  | comp hP hload =>
+    simp only [blocksInst_comp, List.flatMap_cons, List.flatMap_nil, List.append_nil]
+    exact hcomp hP hload
+  | sys hQ hsub hinv hio ih =>
+    rename_i s path name pfx tm sg lens comps
+    obtain ⟨g1, g2, g3⟩ := hsig hQ hinv hsub
+    have hdash : ∀ c ∈ comps, NoDash c.1 := fun c hc => SysNamesOk.inst hQ _ (hinv.compNames c hc)
+    rw [blocksInst_sys, List.flatMap_append, List.flatMap_assoc, List.flatMap_map]
+    have hpart : ∀ x ∈ comps.flatMap (fun c => (blocksInst c.2).flatMap N), ∃ c ∈ comps, HasPfx (pfx ++ c.1 ++ "-") x := by
+      intro x hx
+      obtain ⟨c, hc, hxc⟩ := List.mem_flatMap.mp hx
+      exact ⟨c, hc, (ih c hc).2 x hxc⟩
+    refine ⟨?_, ?_⟩
+    · rw [List.nodup_append]
+      refine ⟨?_, g1, ?_⟩
+      · unfold List.Nodup
+        rw [List.pairwise_flatMap]
+        refine ⟨fun c hc => (ih c hc).1, ?_⟩
+        have hp : comps.Pairwise (fun a b => a.1 ≠ b.1) := List.pairwise_map.mp hinv.compNodup
+        refine List.Pairwise.imp_of_mem ?_ hp
+        intro a b ha hb hne x hx y hy hxy
+        subst hxy
+        exact hne (sibling_pfx (hdash a ha) (hdash b hb) ((ih a ha).2 x hx) ((ih b hb).2 x hy))
+      · intro x hx y hy hxy
+        subst hxy
+        obtain ⟨c, hc, hpx⟩ := hpart x hx
+        exact g3 x hy c hc hpx
+    · intro x hx
+      rcases List.mem_append.mp hx with hx | hx
+      · obtain ⟨c, hc, hpx⟩ := hpart x hx
+        exact hpx.trans_append.trans_append
+      · exact g2 x hx
+
+/-! ### the three name lists -/
+
+theorem nodup_map_inj_on {α β} {f : α → β} {l : List α} (hf : ∀ a ∈ l, ∀ b ∈ l, f a = f b → a = b) (h : l.Nodup) :
+    (l.map f).Nodup := by
+  induction l with
+  | nil => simp
+  | cons a r ih =>
+    rw [List.nodup_cons] at h
+    rw [List.map_cons, List.nodup_cons]
+    refine ⟨?_, ih (fun x hx y hy => hf x (List.mem_cons_of_mem _ hx) y (List.mem_cons_of_mem _ hy)) h.2⟩
+    intro hm
+    obtain ⟨b, hb, e⟩ := List.mem_map.1 hm
+    have := hf b (List.mem_cons_of_mem _ hb) a List.mem_cons_self e
+    subst this
+    exact h.1 hb
+
+theorem nodup_pfx_map {l : List String} (h : l.Nodup) (p : String) : (l.map (p ++ ·)).Nodup :=
+  nodup_map_inj_on (fun a _ b _ e => (String.append_right_inj p).1 e) h
+
+theorem wcName_eq (pfx sg : String) : wcName pfx sg = pfx ++ (sg ++ "-" ++ "_WC") := by
+  simp only [wcName, String.append_assoc]; rfl
+
+theorem self_eq (pfx sg : String) : pfx ++ sg ++ "-_Self" = pfx ++ (sg ++ "-" ++ "_Self") := by
+  simp only [String.append_assoc]; rfl
+
+theorem portItems_fst (pfx : String) (e : SigEntry) : (portItems pfx e).1 = e.comp ++ "-" ++ portName e.port := by
+  unfold portItems portName
+  cases e.port with
+  | seq i b => simp only; split <;> rfl
+  | sig n => rfl
+
+/-- sequence names -/
+def seqN (b : Block) : List String := (seqLines (blockDoc b)).map (·.1)
+/-- structure names (= names of the assignment lines) -/
+def asgN (b : Block) : List String := (assignLines (blockDoc b)).map (·.1)
+/-- strand names -/
+def strN (b : Block) : List String := (blockDesign b).strands.map (·.1)
+
+theorem seqN_comp (st : Comp.St) :
+    seqN (.comp st) = ((st.baseSeqs.filter (·.len != 0)).map (·.name)).map (st.pfx ++ ·) := by
+  simp only [seqN, blockDoc, seqLines_compDoc, List.map_map]; rfl
+
+theorem seqN_sig (pfx : String) (lens : List (String × Nat)) (x : String × List SigEntry) :
+    seqN (sigBlock pfx lens x) = [pfx ++ x.1, pfx ++ (x.1 ++ "-" ++ "_WC")] := by
+  simp only [seqN, sigBlock, blockDoc, seqLines_signalDoc, List.map_cons, List.map_nil, wcName_eq]
+
+theorem asgN_comp (st : Comp.St) : asgN (.comp st) = (st.structs.map (·.name)).map (st.pfx ++ ·) := by
+  simp only [asgN, blockDoc, assignLines_compDoc, List.map_map]; rfl
+
+/-- the part of a connector structure's name after the signal -/
+def entryTail (e : SigEntry) : String := e.comp ++ "-" ++ portName e.port
+
+theorem asgN_sig (pfx : String) (lens : List (String × Nat)) (x : String × List SigEntry) :
+    asgN (sigBlock pfx lens x) = ("_Self" :: x.2.map entryTail).map (fun t => pfx ++ (x.1 ++ "-" ++ t)) := by
+  simp only [asgN, sigBlock, blockDoc, assignLines_signalDoc, List.map_cons, List.map_map, self_eq]
+  congr 1
+  apply List.map_congr_left
+  intro e _
+  simp only [Function.comp, portItems_fst, entryTail, String.append_assoc]
+
+theorem strN_comp (st : Comp.St) : strN (.comp st) = (st.strands.map (·.name)).map (st.pfx ++ ·) := by
+  simp only [strN, blockDesign, compDesign, List.map_map]; rfl
+
+theorem strN_sig (pfx : String) (lens : List (String × Nat)) (x : String × List SigEntry) :
+    strN (sigBlock pfx lens x) = [] := rfl
+
+theorem hasPfx_map (p : String) (l : List String) : ∀ x ∈ l.map (p ++ ·), HasPfx p x := by
+  intro x hx
+  obtain ⟨r, _, rfl⟩ := List.mem_map.mp hx
+  exact ⟨r, rfl⟩
+
+theorem seq_names_ok {pfx : String} {inst : Inst} (hL : Loaded PD QD pfx inst) :
+    ((blocksInst inst).flatMap seqN).Nodup ∧ ∀ x ∈ (blocksInst inst).flatMap seqN, HasPfx pfx x := by
+  refine names_ok seqN ?_ ?_ hL
+  · intro c n pfx a st a' hP hload
+    obtain ⟨ci, hp, _⟩ := load_inv_all hload hP.1
+    rw [seqN_comp, hp]
+    exact ⟨nodup_pfx_map (nodup_names_filter (nodup_names_filter ci.wf.seqs.nodup _) _) _, hasPfx_map _ _⟩
+  · intro s pfx sg lens comps hQ hinv hsub
+    have hsd : ∀ x ∈ sg, NoDash x.1 ∧ x.1 ∉ instNames s.stmts := fun x hx => SysNamesOk.sig hQ _ (hinv.sigIn x hx)
+    simp only [seqN_sig]
+    refine ⟨?_, ?_, ?_⟩
+    · unfold List.Nodup
+      rw [List.pairwise_flatMap]
+      refine ⟨?_, ?_⟩
+      · intro x hx
+        simp only [List.pairwise_cons, List.mem_singleton, forall_eq, List.not_mem_nil, false_imp_iff, implies_true,
+          List.Pairwise.nil, and_true, ne_eq]
+        rw [String.append_right_inj]
+        exact fun h => dash_ne (hsd x hx).1 h.symm
+      · have hp : sg.Pairwise (fun a b => a.1 ≠ b.1) := List.pairwise_map.mp hinv.sigNodup
+        refine List.Pairwise.imp_of_mem ?_ hp
+        intro a b ha hb hne x hx y hy hxy
+        subst hxy
+        simp only [List.mem_cons, List.not_mem_nil, or_false] at hx hy
+        rcases hx with rfl | rfl <;> rcases hy with hy | hy
+        · exact hne ((String.append_right_inj _).1 hy)
+        · exact dash_ne (hsd a ha).1 ((String.append_right_inj _).1 hy).symm
+        · exact dash_ne (hsd b hb).1 ((String.append_right_inj _).1 hy)
+        · exact hne (dash_split (hsd a ha).1 (hsd b hb).1 ((String.append_right_inj _).1 hy)).1
+    · intro x hx
+      obtain ⟨y, _, hxy⟩ := List.mem_flatMap.mp hx
+      simp only [List.mem_cons, List.not_mem_nil, or_false] at hxy
+      rcases hxy with rfl | rfl <;> exact ⟨_, rfl⟩
+    · intro x hx c hc hpx
+      obtain ⟨y, hy, hxy⟩ := List.mem_flatMap.mp hx
+      have hcd : NoDash c.1 := SysNamesOk.inst hQ _ (hinv.compNames c hc)
+      simp only [List.mem_cons, List.not_mem_nil, or_false] at hxy
+      rcases hxy with rfl | rfl
+      · exact pfx_dash_ne (hsd y hy).1 hpx
+      · rw [← String.append_assoc, ← String.append_assoc] at hpx
+        have := pfx_dash_eq (x := "") hcd (hsd y hy).1 hpx
+        exact (hsd y hy).2 (this ▸ hinv.compNames c hc)
+
+theorem str_names_ok {pfx : String} {inst : Inst} (hL : Loaded PD QD pfx inst) :
+    ((blocksInst inst).flatMap strN).Nodup ∧ ∀ x ∈ (blocksInst inst).flatMap strN, HasPfx pfx x := by
+  refine names_ok strN ?_ ?_ hL
+  · intro c n pfx a st a' hP hload
+    obtain ⟨ci, hp, _⟩ := load_inv_all hload hP.1
+    rw [strN_comp, hp]
+    exact ⟨nodup_pfx_map ci.wf.strandNames _, hasPfx_map _ _⟩
+  · intro s pfx sg lens comps hQ hinv hsub
+    have : sg.flatMap (fun x => strN (sigBlock pfx lens x)) = [] := Des.flatMap_nil' _ _ (fun _ _ => rfl)
+    rw [this]
+    simp
+
+theorem instPortNames_nodup {pfx : String} {inst : Inst} (hL : Loaded PD QD pfx inst) : (instPortNames inst).Nodup := by
+  cases hL with
+  | comp hP hload =>
+    simp only [instPortNames]
+    rw [load_port_names hload]
+    have := hP.2
+    simp only [PortsDistinct, decide_eq_true_eq] at this
+    exact this
+  | sys hQ hsub hinv hio =>
+    simp only [instPortNames, SysSt.inputSeqs, SysSt.outputSeqs]
+    exact SysNamesOk.io hQ
+
+theorem keys_nodup {pfx : String} {comps : List (String × Inst)} (hn : (comps.map (·.1)).Nodup)
+    (hsub : ∀ c ∈ comps, Loaded PD QD (pfx ++ c.1 ++ "-") c.2) : (comps.flatMap instKeys).Nodup := by
+  unfold List.Nodup
+  rw [List.pairwise_flatMap]
+  refine ⟨?_, ?_⟩
+  · intro c hc
+    exact nodup_map_inj_on (fun a _ b _ e => by simpa using e) (instPortNames_nodup (hsub c hc))
+  · have hp : comps.Pairwise (fun a b => a.1 ≠ b.1) := List.pairwise_map.mp hn
+    refine hp.imp ?_
+    intro a b hne x hx y hy hxy
+    subst hxy
+    simp only [instKeys, List.mem_map] at hx hy
+    obtain ⟨_, _, rfl⟩ := hx
+    obtain ⟨_, _, h2⟩ := hy
+    simp only [Prod.mk.injEq] at h2
+    exact hne h2.1.symm
+
+theorem entryTail_eq (e : SigEntry) : entryTail e = (entryKey e).1 ++ "-" ++ (entryKey e).2 := rfl
+
+theorem asg_names_ok {pfx : String} {inst : Inst} (hL : Loaded PD QD pfx inst) :
+    ((blocksInst inst).flatMap asgN).Nodup ∧ ∀ x ∈ (blocksInst inst).flatMap asgN, HasPfx pfx x := by
+  refine names_ok asgN ?_ ?_ hL
+  · intro c n pfx a st a' hP hload
+    obtain ⟨ci, hp, _⟩ := load_inv_all hload hP.1
+    rw [asgN_comp, hp]
+    exact ⟨nodup_pfx_map ci.wf.structNames _, hasPfx_map _ _⟩
+  · intro s pfx sg lens comps hQ hinv hsub
+    have hsd : ∀ x ∈ sg, NoDash x.1 ∧ x.1 ∉ instNames s.stmts := fun x hx => SysNamesOk.sig hQ _ (hinv.sigIn x hx)
+    have hcompd : ∀ x ∈ sg, ∀ e ∈ x.2, NoDash e.comp := by
+      intro x hx e he
+      obtain ⟨inst, len, hm, _, _⟩ := hinv.entries x hx e he
+      exact SysNamesOk.inst hQ _ (hinv.compNames _ hm)
+    have hK := keys_nodup hinv.compNodup hsub
+    have htails : ∀ x ∈ sg, ("_Self" :: x.2.map entryTail).Nodup := by
+      intro x hx
+      rw [List.nodup_cons]
+      refine ⟨?_, ?_⟩
+      · intro hm
+        obtain ⟨e, _, he⟩ := List.mem_map.mp hm
+        exact dash_ne (by decide : NoDash "_Self") he
+      · have hkn : (x.2.map entryKey).Nodup := List.Nodup.sublist (hinv.entryKeys x hx) hK
+        have : x.2.map entryTail = (x.2.map entryKey).map (fun k => k.1 ++ "-" ++ k.2) := by
+          rw [List.map_map]; rfl
+        rw [this]
+        refine nodup_map_inj_on ?_ hkn
+        intro k1 hk1 k2 hk2 heq
+        obtain ⟨e1, he1, rfl⟩ := List.mem_map.mp hk1
+        obtain ⟨e2, he2, rfl⟩ := List.mem_map.mp hk2
+        obtain ⟨h1, h2⟩ := dash_split (hcompd x hx e1 he1) (hcompd x hx e2 he2) heq
+        exact Prod.ext h1 h2
+    simp only [asgN_sig]
+    refine ⟨?_, ?_, ?_⟩
+    · unfold List.Nodup
+      rw [List.pairwise_flatMap]
+      refine ⟨?_, ?_⟩
+      · intro x hx
+        refine nodup_map_inj_on ?_ (htails x hx)
+        intro t1 _ t2 _ heq
+        rw [String.append_right_inj, String.append_right_inj] at heq
+        exact heq
+      · have hp : sg.Pairwise (fun a b => a.1 ≠ b.1) := List.pairwise_map.mp hinv.sigNodup
+        refine List.Pairwise.imp_of_mem ?_ hp
+        intro a b ha hb hne x hx y hy hxy
+        subst hxy
+        obtain ⟨t1, _, rfl⟩ := List.mem_map.mp hx
+        obtain ⟨t2, _, h2⟩ := List.mem_map.mp hy
+        rw [String.append_right_inj] at h2
+        exact hne (dash_split (hsd b hb).1 (hsd a ha).1 h2).1.symm
+    · intro x hx
+      obtain ⟨y, _, hxy⟩ := List.mem_flatMap.mp hx
+      obtain ⟨t, _, rfl⟩ := List.mem_map.mp hxy
+      exact ⟨_, rfl⟩
+    · intro x hx c hc hpx
+      obtain ⟨y, hy, hxy⟩ := List.mem_flatMap.mp hx
+      obtain ⟨t, _, rfl⟩ := List.mem_map.mp hxy
+      have hcd : NoDash c.1 := SysNamesOk.inst hQ _ (hinv.compNames c hc)
+      rw [← String.append_assoc, ← String.append_assoc] at hpx
+      have := pfx_dash_eq (x := "") hcd (hsd y hy).1 hpx
+      exact (hsd y hy).2 (this ▸ hinv.compNames c hc)
+
+/-! ### the block clauses -/
+
+theorem resolves_mono {d1 d2 : List (String × List Char)} (h : ∀ q ∈ d1, q ∈ d2) {x : String} {l : Nat}
+    (hr : Resolves d1 x l) : Resolves d2 x l := by
+  obtain ⟨q, hq, h1, h2⟩ := hr
+  exact ⟨q, h q hq, h1, h2⟩
+
+theorem blockOk_mono {d1 d2 : List (String × List Char)} (h : ∀ q ∈ d1, q ∈ d2) {b : Block} (hb : BlockOk d1 b) :
+    BlockOk d2 b := by
+  cases b with
+  | comp st => exact hb
+  | signal pfx sg len es =>
+    intro e he
+    have := hb e he
+    unfold EntryOk at this ⊢
+    cases hp : e.port with
+    | seq i bases =>
+      simp only [hp] at this ⊢
+      split
+      · rename_i hs
+        simp only [hs, if_true] at this
+        exact ⟨this.1, fun b hb h0 => resolves_mono h (this.2 b hb h0)⟩
+      · rename_i hs
+        simp only [hs, if_false] at this
+        exact ⟨this.1, resolves_mono h this.2⟩
+    | sig n =>
+      simp only [hp] at this ⊢
+      exact resolves_mono h this
+
+theorem domains_mono {bs bs' : List Block} (h : ∀ b ∈ bs, b ∈ bs') :
+    ∀ q ∈ (designOfBlocks bs).domains, q ∈ (designOfBlocks bs').domains := by
+  intro q hq
+  obtain ⟨b, hb, hqb⟩ := List.mem_flatMap.mp hq
+  exact List.mem_flatMap.mpr ⟨b, h b hb, hqb⟩
+
+theorem compDesign_domains (st : Comp.St) : (compDesign st).domains = seqLines (compDoc st) := by
+  rw [seqLines_compDoc]; rfl
+
+theorem blocks_ok {pfx : String} {inst : Inst} (hL : Loaded PD QD pfx inst) :
+    ∀ b ∈ blocksInst inst, BlockOk (designOfBlocks (blocksInst inst)).domains b := by
+  induction hL with
+  | comp hP hload =>
+    intro b hb
+    simp only [blocksInst_comp, List.mem_singleton] at hb
+    subst hb
+    obtain ⟨ci, _, _⟩ := load_inv_all hload hP.1
+    exact compOk_of_inv ci.wf ci.wfx
+  | sys hQ hsub hinv hio ih =>
+    rename_i s path name pfx tm sg lens comps
+    intro b hb
+    have hsubBlocks : ∀ c ∈ comps, ∀ b' ∈ blocksInst c.2,
+        b' ∈ blocksInst (.sys (.mk path name pfx tm sg lens comps s.inputs s.outputs)) := by
+      intro c hc b' hb'
+      rw [blocksInst_sys]
+      exact List.mem_append_left _ (List.mem_flatMap.mpr ⟨c, hc, hb'⟩)
+    rw [blocksInst_sys] at hb
+    rcases List.mem_append.mp hb with hb | hb
+    · obtain ⟨c, hc, hbc⟩ := List.mem_flatMap.mp hb
+      exact blockOk_mono (domains_mono (hsubBlocks c hc)) (ih c hc b hbc)
+    · obtain ⟨x, hx, rfl⟩ := List.mem_map.mp hb
+      intro e he
+      obtain ⟨inst', len', hm, hl, hport⟩ := hinv.entries x hx e he
+      have hLi := hsub (e.comp, inst') hm
+      have hdom := domains_mono (hsubBlocks (e.comp, inst') hm)
+      simp only at hLi hdom
+      have hlen : (lens.lookup x.1).getD 0 = len' := by rw [hl]; rfl
+      have hpos : len' ≠ 0 := hinv.lensPos _ (lookup_mem hl)
+      simp only [hlen]
+      cases hLi with
+      | comp hP hload =>
+        rename_i c0 n0 a0 st a0'
+        obtain ⟨ci, hp, _⟩ := load_inv_all hload hP.1
+        have hdom' : ∀ q ∈ seqLines (compDoc st), q ∈ (designOfBlocks
+            (blocksInst (.sys (.mk path name pfx tm sg lens comps s.inputs s.outputs)))).domains := by
+          intro q hq
+          apply hdom
+          refine List.mem_flatMap.mpr ⟨Block.comp st, by simp [blocksInst_comp], ?_⟩
+          simp only [blockDesign, compDesign_domains]
+          exact hq
+        unfold EntryOk
+        cases hpe : e.port with
+        | sig m => rw [hpe] at hport; simp [PortInv] at hport
+        | seq i bases =>
+          rw [hpe] at hport
+          simp only [PortInv] at hport
+          obtain ⟨_, hil, se, hf, hsl, hsk, rfl⟩ := hport
+          obtain ⟨hsel, hsen⟩ := findE_some hf
+          have hpe' : entryPfx pfx e = st.pfx := by rw [hp]; rfl
+          simp only [hpe']
+          split
+          · refine ⟨?_, ?_⟩
+            · rw [← (ci.wf.seqs.entries se hsel).lenB, ← hsl, hil]
+            · intro b hb h0
+              exact resolves_mono hdom' (resolves_of_baseOk ci.wf (seq_bases_ok ci.wf.seqs hsel b hb) h0)
+          · rename_i hns
+            refine ⟨hil, ?_⟩
+            have hsf : se.isSup = false := by
+              rw [← hsk]; simpa using hns
+            obtain ⟨g1, g2⟩ := base_line ci.wf hsel hsf (by rw [← hsl, hil]; exact hpos)
+            exact ⟨_, hdom' _ g1, by rw [hsen], by rw [g2, ← hsl, hil]⟩
+      | sys hQ' hsub' hinv' hio' =>
+        rename_i s' path' name' tm' sg' lens' comps'
+        unfold EntryOk
+        cases hpe : e.port with
+        | seq i bases => rw [hpe] at hport; simp [PortInv] at hport
+        | sig m =>
+          rw [hpe] at hport
+          simp only [PortInv, SysSt.lengths] at hport
+          have hmk : m ∈ sg'.map (·.1) := by
+            rw [← hinv'.keys, ← lookup_isSome_iff, hport]; rfl
+          obtain ⟨x', hx', hxm⟩ := List.mem_map.mp hmk
+          simp only
+          refine ⟨(entryPfx pfx e ++ m, List.replicate len' 'N'), ?_, rfl, by simp⟩
+          apply hdom
+          refine List.mem_flatMap.mpr ⟨sigBlock (pfx ++ e.comp ++ "-") lens' x', ?_, ?_⟩
+          · rw [blocksInst_sys]
+            exact List.mem_append_right _ (List.mem_map.mpr ⟨x', hx', rfl⟩)
+          · simp only [sigBlock, blockDesign, signalDesign, Design.empty, hxm, hport, Option.getD_some,
+              List.mem_singleton, entryPfx]
+
+/-! ### M1 -/
+
+/-- **M1**: the instance tree of a successful `loadFile` satisfies `BlocksOk` -/
+theorem Loaded.blocksOk {pfx : String} {inst : Inst} (hL : Loaded PD QD pfx inst) : BlocksOk (blocksInst inst) := by
+  refine ⟨?_, ?_, ?_, blocks_ok hL⟩
+  · rw [seqNames_docOf]; exact (seq_names_ok hL).1
+  · rw [assignNames_docOf]; exact (asg_names_ok hL).1
+  · have : (designOfBlocks (blocksInst inst)).strands.map (·.1) = (blocksInst inst).flatMap strN := by
+      simp only [designOfBlocks, List.map_flatMap]; rfl
+    rw [this]; exact (str_names_ok hL).1
+
+/-- the hypotheses of M1 on a bundle: every component file satisfies `StmtNamesOk` and `PortsDistinct`,
+    every system file `SysNamesOk` -/
+def DesNamesOk (b : Bundle) : Prop := CompSrcsOk PD b ∧ SysSrcsOk QD b
+
+/-- **5.** `loadFile` establishes `BlocksOk` -/
+theorem loadFile_blocksOk {b : Bundle} (hb : DesNamesOk b) {fuel : Nat} {base : String} {args : Nat}
+    {argKey pfx path : String} {includes : List String} {anon : Nat} {inst : Inst} {a' : Nat}
+    (h : loadFile b fuel base args argKey pfx path includes anon = .ok (inst, a')) :
+    BlocksOk (blocksInst inst) :=
+  (loadFile_loaded hb.1 hb.2 _ _ _ _ _ _ _ _ _ _ h).blocksOk
+
+/-- a single loaded component (no hypothesis on its declaration) -/
+theorem comp_blocksOk {src : Comp.Src} {n : Nat} {pfx : String} {a : Nat} {st : Comp.St} {a' : Nat}
+    (h : Comp.load src n pfx a = .ok (st, a')) (hn : StmtNamesOk src = true) : BlocksOk [Block.comp st] := by
+  obtain ⟨ci, hp, _⟩ := load_inv_all h hn
+  refine ⟨?_, ?_, ?_, ?_⟩
+  · rw [seqNames_docOf]
+    simp only [List.flatMap_cons, List.flatMap_nil, List.append_nil]
+    show (seqN (.comp st)).Nodup
+    rw [seqN_comp]
+    exact nodup_pfx_map (nodup_names_filter (nodup_names_filter ci.wf.seqs.nodup _) _) _
+  · rw [assignNames_docOf]
+    simp only [List.flatMap_cons, List.flatMap_nil, List.append_nil]
+    show (asgN (.comp st)).Nodup
+    rw [asgN_comp]
+    exact nodup_pfx_map ci.wf.structNames _
+  · simp only [designOfBlocks, List.flatMap_cons, List.flatMap_nil, List.append_nil]
+    show (strN (.comp st)).Nodup
+    rw [strN_comp]
+    exact nodup_pfx_map ci.wf.strandNames _
+  · intro b hb
+    simp only [List.mem_singleton] at hb
+    subst hb
+    exact compOk_of_inv ci.wf ci.wfx
+
+/-! ### M2 for one component -/
+
+theorem structNucs_congr {d d' : Design} (h : d.strands = d'.strands) {s s' : StructD} (hs : s.strands = s'.strands) :
+    LinkSpec.structNucs d s = LinkSpec.structNucs d' s' := by
+  unfold LinkSpec.structNucs LinkSpec.strandNucs
+  rw [h, hs]
+
+/-- `Sat` reads a design only through its domains, `equals`, strands and the strand lists and targets of its
+    structures (not through structure names, `opt`, `seqs`, `kinetics`) -/
+theorem sat_of_congr {tbl : CodeTable} {d d' : Design} {a : Var → LinkSpec.Base} (h1 : d.domains = d'.domains)
+    (h2 : d.equals = d'.equals) (h3 : d.strands = d'.strands)
+    (h4 : d.structs.map (fun s => (s.strands, s.struct)) = d'.structs.map (fun s => (s.strands, s.struct)))
+    (h : LinkSpec.Sat tbl d a) : LinkSpec.Sat tbl d' a := by
+  refine ⟨fun p hp => h.tmpl p (h1 ▸ hp), fun e he => h.equal e (h2 ▸ he), ?_⟩
+  intro s hs
+  have : (s.strands, s.struct) ∈ d'.structs.map (fun s => (s.strands, s.struct)) := List.mem_map.mpr ⟨s, hs, rfl⟩
+  rw [← h4] at this
+  obtain ⟨s0, hs0, he⟩ := List.mem_map.mp this
+  simp only [Prod.mk.injEq] at he
+  have := h.pair s0 hs0
+  rw [structNucs_congr h3 he.1, he.2] at this
+  exact this
+
+theorem sat_congr {tbl : CodeTable} {d d' : Design} (h1 : d.domains = d'.domains)
+    (h2 : d.equals = d'.equals) (h3 : d.strands = d'.strands)
+    (h4 : d.structs.map (fun s => (s.strands, s.struct)) = d'.structs.map (fun s => (s.strands, s.struct)))
+    (a : Var → LinkSpec.Base) : LinkSpec.Sat tbl d a ↔ LinkSpec.Sat tbl d' a :=
+  ⟨sat_of_congr h1 h2 h3 h4, sat_of_congr h1.symm h2.symm h3.symm h4.symm⟩
+
+/-- **M2, component case**: the design of a loaded component's tables has the same solutions as the design the
+    specification `Denote.denoteComp` assigns to the source (C01) -/
+theorem comp_sat_iff (tbl : CodeTable) {src : Comp.Src} {n : Nat} {pfx : String} {a : Nat} {st : Comp.St} {a' : Nat}
+    (hload : Comp.load src n pfx a = .ok (st, a')) (hnames : UserNamesOk src = true) (hcodes : CodesOk tbl src = true) :
+    ∃ o ports, Denote.denoteComp src pfx a = .ok (o, ports, a') ∧
+      ∀ asg, Des.Sat tbl (compDesign st) asg ↔ Des.Sat tbl (o.design []) asg := by
+  obtain ⟨spec, o, ports, hl, hden, hequiv, _⟩ := compile_preserves tbl src n pfx a st a' hload hnames hcodes
+  have hn := stmtNamesOk_of_user hnames
+  obtain ⟨ci, _, _⟩ := load_inv_all hload hn
+  obtain ⟨spec', hl', hd'⟩ := emit_sound tbl ci.wf (load_codes hload hn hcodes)
+  rw [hl] at hl'
+  cases hl'
+  rw [hd'] at hequiv
+  obtain ⟨e1, _, e3, e4, e5⟩ := hequiv
+  refine ⟨o, ports, hden, fun asg => ?_⟩
+  have step1 : Des.Sat tbl (compDesign st) asg ↔ Des.Sat tbl (Comp.designOf st) asg :=
+    sat_congr (d := compDesign st) (d' := Comp.designOf st) rfl rfl rfl
+      (by simp [compDesign, Comp.designOf, List.map_map, Function.comp_def]) asg
+  have step2 : Des.Sat tbl (Comp.designOf st) asg ↔ Des.Sat tbl (o.design []) asg :=
+    sat_congr (d := Comp.designOf st) (d' := o.design []) e1 e5 e3 (by rw [e4]) asg
+  exact step1.trans step2
+
 end Pepper.LoadInv
